@@ -806,6 +806,9 @@ package ugo
 //@ loop 2 invariant[captured@C02] forall k int :: 0 <= k && k < i && specIsBoxed(prev(verifrt.Snap(vm.stack[:]))[prev(vm.sp)-numFree+k]) ==> Object(free[k]) == prev(verifrt.Snap(vm.stack[:]))[prev(vm.sp)-numFree+k]
 //@ loop 0 step[closure@C02] prev(vm.curInsts[vm.ip+1]) == byte(OpClosure) ==> vm.ip == prev(vm.ip)+4 && vm.sp == prev(vm.sp)-prev(int(vm.curInsts[vm.ip+4]))+1 && specClosureOf(vm.stack[vm.sp-1], prev(vm.constants[specOperand16(vm.curInsts, vm.ip+2)]), prev(int(vm.curInsts[vm.ip+4])))
 //@ loop 0 step[closurecaptures@C02] prev(vm.curInsts[vm.ip+1]) == byte(OpClosure) ==> forall k int :: 0 <= k && k < prev(int(vm.curInsts[vm.ip+4])) && specIsBoxed(prev(verifrt.Snap(vm.stack[:]))[prev(vm.sp)-prev(int(vm.curInsts[vm.ip+4]))+k]) ==> specCaptured(vm.stack[vm.sp-1], k, prev(verifrt.Snap(vm.stack[:]))[prev(vm.sp)-prev(int(vm.curInsts[vm.ip+4]))+k])
+//@ loop 3 invariant vm.sp == prev(vm.sp)-numItems && vm.ip == prev(vm.ip)+1 && i >= vm.sp+1 && vm.stack[vm.sp] == Object(arr) && len(arr) == numItems && numItems == prev(specOperand16(vm.curInsts, vm.ip+2))
+//@ loop 3 invariant[arrayitems@C02] forall k int :: 0 <= k && k < numItems ==> arr[k] == prev(verifrt.Snap(vm.stack[:]))[prev(vm.sp)-numItems+k]
+//@ loop 0 step[array@C02] prev(vm.curInsts[vm.ip+1]) == byte(OpArray) ==> vm.sp == prev(vm.sp)-prev(specOperand16(vm.curInsts, vm.ip+2))+1 && vm.ip == prev(vm.ip)+3 && specArrayOf(vm.stack[vm.sp-1], prev(verifrt.Snap(vm.stack[:])), prev(vm.sp)-prev(specOperand16(vm.curInsts, vm.ip+2)), prev(specOperand16(vm.curInsts, vm.ip+2)))
 //@ loop 0 step[loadmodule@C12] prev(vm.curInsts[vm.ip+1]) == byte(OpLoadModule) ==> vm.sp == prev(vm.sp)+2 && vm.ip == prev(vm.ip)+5 && specLoadModule(prev(vm.modulesCache[specOperand16(vm.curInsts, vm.ip+4)]), prev(vm.constants[specOperand16(vm.curInsts, vm.ip+2)]), vm.stack[prev(vm.sp)], vm.stack[prev(vm.sp)+1])
 //@ loop 0 step[storemodule@C12] prev(vm.curInsts[vm.ip+1]) == byte(OpStoreModule) ==> vm.sp == prev(vm.sp) && vm.ip == prev(vm.ip)+3 && vm.modulesCache[prev(specOperand16(vm.curInsts, vm.ip+2))] == vm.stack[vm.sp-1]
 //@ loop 0 panicpoint
